@@ -93,7 +93,7 @@ def _root(f):
 
 
 # ------------------------------------------------------------------ local-rename tolerance for construct keys
-_IDENT = re.compile(r"(?<![\w.'\"])([A-Za-z_]\w*)(?!\s*\()")
+_IDENT = re.compile(r"(?<![\w.'\"])([A-Za-z_]\w*)\b(?!\s*\()")
 _KEEP = set(keyword.kwlist) | {'self', 'cls', 'len', 'True', 'False', 'None', 'bitstring', 'options'}
 
 
@@ -106,7 +106,15 @@ def shape(txt, keep=()):
     return _IDENT.sub(rep, txt)
 
 
-def match(table, fk, txt, keep=(), src=None):
+def match(table, fk, txt, keep=(), src=None, params=()):
+    k = _match(table, fk, txt, keep, src)
+    if k is None and params:
+        # a renamed parameter of a private helper: second try with the parameters abstracted too
+        k = _match(table, fk, txt, set(keep) - set(params), src)
+    return k
+
+
+def _match(table, fk, txt, keep=(), src=None):
     """Key of ``table`` justifying construct ``txt`` of function ``fk``: the exact key, or - when a local was renamed -
     the only entry of that function with the same shape.  Only ever used to keep a justification attached."""
     if (fk, txt) in table:
